@@ -22,7 +22,7 @@ FApply(fn, a) ==
       [] fn = "dbl"  -> 2 * a[1]
       [] fn = "inc"  -> a[1] + 1
       [] fn = "step" -> IF a[1] > 2 THEN 1 ELSE 0
-      [] fn = "pos"  -> IF a[1] >= 0 THEN a[1] ELSE 0          \* Python twin: sign test against the literal 0 (positive part)
+      [] fn = "pos"  -> IF a[1] >= 0 THEN a[1] + 1 ELSE 0      \* Python twin: >= against the literal 0, jumps AT the threshold
       [] fn = "dsum" -> a[1]                  \* a data set is represented by the sum of its entries
       [] fn = "loopinc" -> a[1] + 1           \* Python twin uses a while loop: outside every translator's subset
       [] fn = "dflt" -> 3 * a[1]              \* Python twin calls a helper leaving its defaulted parameter (3) unset
